@@ -17,6 +17,8 @@ pub enum CapClass {
     Exact,
     ReservedExact,
     Spare,
+    /// some spare capacity, but less than the line that is about to be inserted
+    Partial,
 }
 
 /// Iterator kind handed to insert_*: all are honest ExactSize + DoubleEnded iterators over pre-made items.
@@ -48,6 +50,7 @@ pub fn apply_cap<T: Elem>(a: &mut TooDee<T>, cap: CapClass, needed: usize) {
         CapClass::Exact => {}
         CapClass::ReservedExact => a.reserve_exact(needed),
         CapClass::Spare => a.reserve(needed + 17),
+        CapClass::Partial => a.reserve_exact((needed / 2).max(1).min(needed.saturating_sub(1)).max(if needed > 1 { 1 } else { 0 })),
     }
 }
 
@@ -172,7 +175,7 @@ fn c06_case<T: Elem>(ctx: &mut Ctx, shape: (usize, usize), cap: CapClass, axis: 
 pub fn run_c06(ctx: &mut Ctx) {
     let n = dims(ctx, 6, 9);
     for shape in shapes(n) {
-        for cap in [CapClass::Exact, CapClass::ReservedExact, CapClass::Spare] {
+        for cap in [CapClass::Exact, CapClass::ReservedExact, CapClass::Spare, CapClass::Partial] {
             for axis in [Axis::Row, Axis::Col] {
                 for ty in 0..3 {
                     let tn = ["Kv", "Tok", "Zst"][ty];
@@ -192,7 +195,7 @@ pub fn run_c06(ctx: &mut Ctx) {
     }
     // larger shapes, sampled indices and lengths
     for shape in big_shapes(ctx, 6) {
-        for (k, cap) in [CapClass::Exact, CapClass::Spare].into_iter().enumerate() {
+        for (k, cap) in [CapClass::Exact, CapClass::Spare, CapClass::Partial].into_iter().enumerate() {
             for axis in [Axis::Row, Axis::Col] {
                 let tys: Vec<usize> = if shape.0 * shape.1 >= 1000 { vec![0, 1, 2] } else { vec![(shape.0 + shape.1 + k) % 3] };
                 for ty in tys {
